@@ -108,7 +108,8 @@ def gen_plan(seed, tier, index=0, avoid=()):
     faults = {"resize": rng.random() < 0.6, "mid": rng.random() < 0.25}
     maxsteps = 40 if tier == "quick" else 120
     nsteps = rng.choice((1, 2, 3, 4, 6, 8, 12, rng.randint(1, maxsteps)))
-    cfg = {"h": h, "w": w, "hide_cursor": rng.random() < 0.7, "onlcr": rng.random() < 0.5}
+    cfg = {"h": h, "w": w, "hide_cursor": rng.random() < 0.7, "onlcr": rng.random() < 0.5,
+           "out_buffer": rng.choice(("none", "line", "block", "block"))}
     steps = []
     prev = None
     last_rendered = None
@@ -230,6 +231,10 @@ def _simp_cfg(p):
         q = planmod.clone(p)
         q["cfg"]["onlcr"] = False
         yield q
+    if c.get("out_buffer", "none") != "none":
+        q = planmod.clone(p)
+        q["cfg"]["out_buffer"] = "none"
+        yield q
     for i, st in enumerate(p["steps"]):
         if st["op"] == "resize":
             for k in ("h", "w"):
@@ -249,7 +254,7 @@ def run_plan(p, keep_log=False):
     kernel = Kernel(world)
     term = TermModel(cfg["h"], cfg["w"], onlcr=cfg["onlcr"])
     world.term = term
-    out = SimOut(world, term)
+    out = SimOut(world, term, cfg.get("out_buffer", "none"))
     seams.bind(world, kernel)
     res = {"violation": None, "error": None, "probes": world.probes, "faults": world.faults,
            "states": set(), "nsteps": 0}
